@@ -51,6 +51,8 @@ def rand_text(rnd, lo, hi, pool=TEXT_POOL, astral=True):
 
 def rand_value(rnd, depth=0):
     x = rnd.random()
+    if x < 0.08:
+        return {"t": "s", "v": u(rnd.choice(["42", "007", "1", "0", "4217"]))}
     if x < 0.45 or depth >= 2:
         return {"t": "s", "v": rand_text(rnd, 0, 12)}
     if x < 0.65:
@@ -141,6 +143,8 @@ class Case:
         self.file = [] if self.nullctx else rand_text(rnd, 0, 16, ASCII_PRINT, False)
         self.func = [] if self.nullctx else rand_text(rnd, 0, 24, ASCII_PRINT, False)
         self.line = rnd.choice([0, 1, 42, 65535, 2147483647])
+        # an earlier formatter of the same (unscoped) pipeline may have set the formatted text already
+        self.prefmt = rand_text(rnd, 1, 20) if rnd.random() < 0.3 else None
         self.attrs = {}
         names = list(NAMES) + (ROUTED if mode == "sentry" else [])
         for name in rnd.sample(names, rnd.randint(0, 5)):
@@ -160,7 +164,8 @@ class Case:
 
     def to_json(self):
         return {"id": self.id, "mode": self.mode, "type": self.type, "text": self.text, "cat": self.cat, "file": self.file,
-                "func": self.func, "line": self.line, "nullctx": self.nullctx,
+                "func": self.func, "line": self.line, "nullctx": self.nullctx, "prefmt": self.prefmt if self.prefmt is not None else [],
+                "hasprefmt": self.prefmt is not None,
                 "attrs": [{"k": u(k), "v": v} for k, v in self.attrs.items()]}
 
     def msg(self):
@@ -196,6 +201,31 @@ class Case:
                  "tags": obj(j.get("tags")), "extra": obj(j.get("extra")), "os": obj(ctx.get("os")), "device": obj(ctx.get("device"))}
             # tags / extra hold entries of the formatter's own besides the attributes; the obligations only look up names
         return {"e": "Sentry", "id": self.id, "msg": self.msg(), "utc": [t.year, t.month, t.day, t.hour, t.minute, t.second], "out": e}
+
+
+def loose_twin(v, rnd):
+    """a value that QVariant::operator== may call equal to v although it is a different value or type"""
+    t = v["t"]
+    if t == "n":
+        try:
+            return {"t": "s", "v": u(str(int(v["v"])))}
+        except ValueError:
+            return {"t": "s", "v": u(v["v"])}
+    if t == "b":
+        return {"t": "n", "v": "1" if v["v"] else "0"}
+    if t == "s":
+        txt = "".join(chr(x) for x in v["v"]) if all(x < 0xD800 for x in v["v"]) else ""
+        if txt.isdigit() and len(txt) < 9:
+            return {"t": "n", "v": str(int(txt))}
+        return {"t": "s", "v": v["v"]}
+    return v
+
+
+def twin_of(case, cid, rnd):
+    """the next message through the same formatter: same attribute names, loosely equal values"""
+    c = Case(cid, rnd, case.mode)
+    c.attrs = {k: loose_twin(v, rnd) for k, v in case.attrs.items()}
+    return c
 
 
 def run_driver(bdir, cases, work, tag, tz):
@@ -248,7 +278,10 @@ def run(pid, tier, seed):
     cases = []
     for i in range(n):
         mode = "sentry" if pid == "C18" else rnd.choice(["compact", "compact", "indented"])
-        cases.append(Case(i + 1, rnd, mode))
+        if cases and rnd.random() < 0.2 and cases[-1].attrs:
+            cases.append(twin_of(cases[-1], i + 1, rnd))     # formatters are objects with a life across messages
+        else:
+            cases.append(Case(i + 1, rnd, mode))
     viol = 0
     events = []
     for tz, part in (("UTC", cases[: n // 2]), ("Asia/Kolkata", cases[n // 2:])):
